@@ -17,6 +17,8 @@ struct DocGen<'a> {
     n: usize,
     wide: bool,
     dests: Vec<String>,
+    /// reference definitions collected for reference-style links
+    defs: Vec<String>,
 }
 
 impl<'a> DocGen<'a> {
@@ -51,6 +53,16 @@ impl<'a> DocGen<'a> {
                 3 => format!("[![{}](img/{}.png) {}]({})", self.word(), self.n, text, dest),
                 _ => format!("[{} \\[x\\]]({})", text, dest),
             },
+            // reference-style links (full, collapsed, shortcut): the destination is written elsewhere
+            5 if self.rng.chance(1, 2) => {
+                let label = format!("r{}", self.n);
+                self.defs.push(format!("[{}]: {}", label, dest));
+                match self.rng.below(3) {
+                    0 => format!("[{}][{}]", text, label),
+                    1 => format!("[{}][]", label),
+                    _ => format!("[{}]", label),
+                }
+            }
             _ => format!("[{}]({})", text, dest),
         }
     }
@@ -165,6 +177,11 @@ impl<'a> DocGen<'a> {
             let (w, l) = (self.word(), self.link());
             lines.push(format!("{} {}", w, l));
         }
+        if !self.defs.is_empty() {
+            let mut ins = vec![String::new()];
+            ins.extend(self.defs.drain(..));
+            lines.splice(1..1, ins);
+        }
         let mut s = lines.join(nl);
         if !ends_in_link {
             s.push_str(nl);
@@ -264,7 +281,7 @@ impl Check for C13 {
         let crlf = case % 4 == 1 || case % 4 == 3;
         let wide = case % 4 >= 2;
         let locus = format!("{}+{}", if crlf { "crlf" } else { "lf" }, if wide { "non-ascii" } else { "ascii" });
-        let mut g = DocGen { rng: &mut rng, n: 0, wide, dests: vec![] };
+        let mut g = DocGen { rng: &mut rng, n: 0, wide, dests: vec![], defs: vec![] };
         let text = g.doc(crlf);
         let dests = g.dests.clone();
         let mut lib: BTreeMap<String, String> = BTreeMap::new();
@@ -387,6 +404,8 @@ impl Check for C13 {
                         }
                     }
                 }
+                // no range is a fair answer where the destination is not written at the link itself (reference-style links)
+                (Some(i), true) if links[i].kind == LKind::Reference => {}
                 (Some(_), true) => {
                     if shown < 3 {
                         shown += 1;
